@@ -21,18 +21,6 @@ func scenario(name, pre, kind string) *e1.Scenario {
 			Cancel: &e1.Trigger{Kind: kind}}}}
 }
 
-// The caller cancels at the moment the dial has returned a connection and the
-// driver has not looked at the context yet: connector.Connect (driver v1.4.2)
-// returns ctx.Err() from watchCancel without closing the socket and without
-// stopping the watcher goroutine it has just started.
-func TestCancelAtDialReturnLeaksSocketAndWatcher(t *testing.T) {
-	out := e1n.Run(scenario("dialed", "", "dialed"))
-	t.Logf("outcome: %+v", out)
-	if !out.Unclosed || !out.Leaked {
-		t.Fatalf("expected the connection to stay open and the driver's watcher goroutine to stay alive (known finding), got %+v", out)
-	}
-}
-
 // The caller cancels while the master's answer to SET @master_binlog_checksum
 // is outstanding. Before the repair (fix: commit, see known_findings.json) the
 // query ran without the context and Stream stayed blocked (Outcome.Blocked after
@@ -42,5 +30,18 @@ func TestCancelWhileSetQueryReplyOutstanding(t *testing.T) {
 	t.Logf("outcome: %+v", out)
 	if out.Blocked || out.Leaked || out.Unclosed || !strings.Contains(out.Key, "stream=cancel") {
 		t.Fatalf("Stream must return with the cancellation, leaving nothing behind: %+v", out)
+	}
+}
+
+// The caller cancels at the moment the dial has returned a connection and the
+// driver has not looked at the context yet: connector.Connect (driver v1.4.2)
+// returns ctx.Err() from watchCancel without closing the socket and without
+// stopping the watcher goroutine it has just started.
+// (Runs last: what it leaves behind stays in the process.)
+func TestCancelAtDialReturnLeaksSocketAndWatcher(t *testing.T) {
+	out := e1n.Run(scenario("dialed", "", "dialed"))
+	t.Logf("outcome: %+v", out)
+	if !out.Unclosed || !out.Leaked {
+		t.Fatalf("expected the connection to stay open and the driver's watcher goroutine to stay alive (known finding), got %+v", out)
 	}
 }
